@@ -24,6 +24,11 @@ def sh(cmd, cwd=None, env=None, timeout=None, stdin=None, stdout=subprocess.PIPE
     return p.returncode, (p.stdout or "")
 
 
+# extractor name -> the Generated modules it writes
+GENERATED_BY = {"cache": ["CacheConst"], "fmt": ["Fmt"], "keycache": ["KeyCacheFacts"], "kms": ["Kms"], "metastore": ["Metastore"],
+                "partition": ["Partition"], "secmem": ["SecMem"], "server": ["Server"], "sesscache": ["SessCacheFacts"]}
+
+
 class Lock:
     """serialises Generated/ rewriting and lake builds across concurrently running checks"""
     def __init__(self, name="lake"):
@@ -96,10 +101,25 @@ class Ctx:
             if rc != 0:
                 self.proof_errors.append("extractor does not build:\n" + out[-2000:]); return False
             rc, out = sh([os.path.join(BUILD, "extract"), "-repo", REPO, "-out", os.path.join(LEAN, "AsherahVerif", "Generated")], env=self.env)
-            if rc != 0:
-                self.proof_errors.append("extraction of facts from /repo failed (source shape changed):\n" + out[-3000:]); return False
+            self.extracted = True
             self.notes["extract"] = out.strip().splitlines()[-5:]
+            if rc != 0:
+                # an extractor that no longer finds what it reads (source shape changed) breaks the obligations
+                # of the properties whose theorems import that engine's Generated module, and only those
+                # (decided in `prove`, which knows the import closure)
+                self.extract_failed = {}
+                for l in out.splitlines():
+                    m = re.match(r"extract (\w+): ERROR (.*)$", l)
+                    if m: self.extract_failed[m.group(1)] = m.group(2)
+                if not self.extract_failed:
+                    self.proof_errors.append("extraction of facts from /repo failed:\n" + out[-3000:]); return False
             return True
+
+    def _regen(self):
+        """(lake lock held) rewrite Generated/ from THIS run's repository again: another check running
+        concurrently against another tree (VERIF_REPO) may have rewritten it since `extract`"""
+        if getattr(self, "extracted", False):
+            sh([os.path.join(BUILD, "extract"), "-repo", REPO, "-out", os.path.join(LEAN, "AsherahVerif", "Generated")], env=self.env)
 
     def build_go(self, name, tags="verif", overlay=None):
         """build go/cmd/<name> against /repo's current working tree"""
@@ -124,16 +144,22 @@ class Ctx:
 
     def lake(self, targets):
         with Lock():
+            self._regen()
             rc, out = sh(["lake", "build"] + targets, cwd=LEAN)
         return rc, out
 
     def driver_path(self, engine):
         exe = "modeldriver" if engine == "cache" else "md_" + engine
-        return exe, os.path.join(LEAN, ".lake", "build", "bin", exe)
+        own = os.path.join(self.work, exe)          # private copy taken under the lake lock by build_driver
+        return exe, own if os.path.exists(own) else os.path.join(LEAN, ".lake", "build", "bin", exe)
 
     def build_driver(self, engine="cache"):
         exe, _ = self.driver_path(engine)
-        rc, out = self.lake([exe])
+        with Lock():
+            self._regen()
+            rc, out = sh(["lake", "build", exe], cwd=LEAN)
+            if rc == 0:
+                shutil.copy2(os.path.join(LEAN, ".lake", "build", "bin", exe), os.path.join(self.work, exe))
         if rc != 0:
             self.proof_errors.append("model driver %s does not build:\n%s" % (exe, out[-3000:]))
             return False
@@ -155,7 +181,8 @@ class Ctx:
             f.write("import AsherahVerif.Audit.Tool\n")
             for ns in namespaces: f.write("#audit_namespace %s\n" % ns)
         with Lock():
-            sh(["lake", "build", "AsherahVerif.Audit.Tool"], cwd=LEAN)
+            self._regen()
+            sh(["lake", "build", "AsherahVerif.Audit.Tool"] + modules, cwd=LEAN)
             rc, out = sh(["lake", "env", "lean", audit], cwd=LEAN)
         if rc != 0:
             self.proof_errors.append("axiom audit failed:\n" + out[-2000:]); return False
@@ -190,11 +217,17 @@ class Ctx:
                     ok = False
                     self.proof_errors.append("forbidden construct in %s:%d: %s" % (os.path.basename(fn), i, l.strip()[:120]))
         self.notes["audited_files"] = len(seen)
+        for eng, msg in getattr(self, "extract_failed", {}).items():
+            if any(m == "AsherahVerif.Generated." + g for m in seen for g in GENERATED_BY.get(eng, [eng])):
+                ok = False
+                self.proof_errors.append("extraction of the %s facts from /repo failed (source shape changed): %s" % (eng, msg))
         self.trusted += ["Lean 4.33.0 kernel", "axioms used: " + ", ".join(sorted({a for _, axs, _ in self.obligations for a in axs}) or ["none"])]
         return ok
 
     def leanchecker(self, modules):
         with Lock():
+            self._regen()
+            sh(["lake", "build"] + modules, cwd=LEAN)
             rc, out = sh(["lake", "env", "leanchecker"] + modules, cwd=LEAN, timeout=1800)
         self.notes["leanchecker"] = "ok" if rc == 0 else out[-500:]
         if rc != 0:
